@@ -76,7 +76,7 @@ func configs04(tier string) []xplore.Config {
 	// two writers (one per target) and an all-targets subscriber; two subscribers
 	short := scripts04(1, alpha)
 	for _, s1 := range short {
-		for _, s2 := range scripts04(1, []wop{{"upd", "a/b"}, {"del", "a/b"}, {"reset", ""}}) {
+		for _, s2 := range scripts04(1, []wop{{"upd", "a/b"}, {"del", "a/b"}, {"reset", ""}, {"remove", ""}}) {
 			out = append(out, xplore.Config{Name: fmt.Sprintf("W(t1)=%s W(t2)=%s | %s", scriptName(s1), scriptName(s2), subs[2]), Bound: bound,
 				Data: cfg04{writers: []writer{{"t1", s1}, {"t2", s2}}, subs: []subSpec{subs[2]}}})
 		}
